@@ -98,6 +98,27 @@ Proof.
   - destruct (eq_dec k' k0); [reflexivity|exact IH].
 Qed.
 
+Lemma keys_del1_sub {V} k (m : amap Z V) x : In x (keys (del1 k m)) -> In x (keys m).
+Proof.
+  unfold keys. induction m as [|[k0 v0] m IH]; simpl; [tauto|].
+  destruct (Z.eq_dec k k0); simpl; [intros H; right; exact H|]. intros [H|H]; [left; exact H|right; exact (IH H)].
+Qed.
+
+Lemma keys_del1_NoDup {V} k (m : amap Z V) : NoDup (keys m) -> NoDup (keys (del1 k m)).
+Proof.
+  unfold keys. induction m as [|[k0 v0] m IH]; simpl; intros H; [constructor|].
+  inversion H as [|? ? Hni Hnd]; subst. destruct (Z.eq_dec k k0); simpl; [exact Hnd|].
+  constructor; [intros Hi; apply Hni; exact (keys_del1_sub _ _ _ Hi)|exact (IH Hnd)].
+Qed.
+
+Lemma get_del1_same {V} k (m : amap Z V) : NoDup (keys m) -> get k (del1 k m) = None.
+Proof.
+  unfold keys. induction m as [|[k0 v0] m IH]; simpl; intros H; [reflexivity|].
+  inversion H as [|? ? Hni Hnd]; subst. destruct (Z.eq_dec k k0) as [->|Hne]; simpl.
+  - destruct (get k0 m) eqn:E; [|reflexivity]. exfalso. apply Hni. apply get_In in E. apply in_map_iff. exists (k0, v). auto.
+  - unfold eq_dec, EqDec_Z. destruct (Z.eq_dec k k0); [contradiction|]. exact (IH Hnd).
+Qed.
+
 (** ** the ledger *)
 Lemma pair_neq_l (a a' : acct) (d d' : denom) : a' <> a -> (a', d') <> (a, d).
 Proof. congruence. Qed.
